@@ -403,6 +403,9 @@ func execWindow(c Case) [][][]string {
 			}
 		case "itick":
 			window.VerifWatermarkTickIdle(w, true)
+		case "reset": // Window.Reset: the same object is used again, as a new window
+			w.Reset()
+			lastAddStart, lastAddEnd = time.Time{}, time.Time{}
 		case "trigger": // manual flush (public as Streamsql.TriggerWindow)
 			from := len(cur)
 			w.Trigger()
@@ -448,4 +451,28 @@ func canonSessionPass(seg [][]string) {
 		return a < b
 	})
 	copy(seg, append(firsts, lates...))
+}
+
+// maybeReset: now and then the window object is used twice — the case's ops, Window.Reset(), the same ops again. After
+// Reset the window is as new (the model starts again from its initial state), so the second run must repeat the first.
+func maybeReset(rng *rand.Rand, c Case) Case {
+	if strings.HasPrefix(cfgStr(c, "kind", "tumbling"), "sql") || cfgInt(c, "live", 0) == 1 || cfgStr(c, "mode", "et") != "et" {
+		return c
+	}
+	fired := false
+	for _, op := range c.Ops {
+		switch op[0] {
+		case "sleep", "ntick":
+			return c
+		case "deliver", "drain":
+			fired = true
+		}
+	}
+	if !fired || len(c.Ops) > 60 || rng.Intn(5) != 0 {
+		return c
+	}
+	ops := append([][]string(nil), c.Ops...)
+	c.Ops = append(append(ops, []string{"reset"}), ops...)
+	c.Stat = append(c.Stat, "window-reset-and-reuse")
+	return c
 }
